@@ -460,7 +460,7 @@ def native_convolve(pairs):
                 xi = (np.arange(2 * nsx).reshape(2, nsx) % 7 * 100 - 250).astype(dt)
                 wantf = np.array([np.convolve(r.astype(float), wf, "full") for r in xi])
                 gotf = F.convolve(xi, wf, "full")
-                if not np.allclose(gotf[:, :nsx + nsw - 1], wantf, atol=1e-3 if dt == np.float32 else 1e-6):
+                if gotf.shape[-1] < nsx + nsw - 1 or not np.allclose(gotf[:, :nsx + nsw - 1], wantf, atol=1e-3 if dt == np.float32 else 1e-6):
                     bad.append(("full, %s signal with a fractional kernel" % dt.__name__, nsx, nsw))
                     break
     return bad
